@@ -168,13 +168,18 @@ def run_batch(prop, world_name, count, params=None, seed=0, workers=None, wall_b
 
 
 # ---------------------------------------------------------------------------- minimisation
-def _fails_same(res, cls):
+def _fails_same(res, cls, key=None):
+    """The run shows a violation of the same class (and, when given, the same key: the shrinker
+    must not drift from an unlisted violation into the shape of a known finding)."""
     if res.get('error'):
         return False
-    return any(v.get('cls') == cls for v in res.get('violations', []))
+    for v in res.get('violations', []):
+        if v.get('cls') == cls and (key is None or (v.get('key') or {}) == key):
+            return True
+    return False
 
 
-def shrink(world_name, seed, params, records, cls, budget_s=60.0, log=None):
+def shrink(world_name, seed, params, records, cls, budget_s=60.0, log=None, key=None):
     """Shrink recorded tapes while a violation of class `cls` persists.  Returns (records, result)."""
     t_end = time.time() + budget_s
     best = {k: list(v) for k, v in records.items()}
@@ -187,7 +192,7 @@ def shrink(world_name, seed, params, records, cls, budget_s=60.0, log=None):
             return False
         tries += 1
         res = fork_run(world_name, seed, params, replay=cand, want_tapes=True, wall_cap=60)
-        if _fails_same(res, cls):
+        if _fails_same(res, cls, key):
             # keep what the run actually consumed (never longer than the candidate)
             used = res.get('tapes') or cand
             best = {k: list(used.get(k, []))[:len(cand.get(k, []))] if k in cand else [] for k in cand}
@@ -292,6 +297,6 @@ def replay_file(path):
         doc = json.load(f)
     res = fork_run(doc['world'], doc['seed'], doc.get('params') or {}, replay=doc['tapes'], want_tapes=True)
     want = doc['violation'].get('cls')
-    same_cls = _fails_same(res, want)
+    same_cls = _fails_same(res, want, doc['violation'].get('key'))
     same_digest = res.get('digest') == doc.get('digest')
     return same_cls and same_digest, res, doc, same_cls, same_digest
